@@ -300,6 +300,9 @@ SKEL = {
     "d_inc_kwarg_then_plain": ("{% include 'px', x: c %}{% include 'px' %}", False),
     "d_inc_bound_then_plain": ("{% include 'item' for xs %}{% include 'item' %}", False),
     "d_inc_nested_then_top": ("{% for x in xs %}{% include 'pn' %}{% endfor %}{% include 'px' %}", False),
+    "d_inc_nested_twice": ("{% for x in xs %}{% include 'pn' %}{% endfor %}|{% include 'pn' %}", True),
+    "d_inc_nested3_twice": ("{% for x in xs %}{% include 'pnn' %}{% endfor %}{% if f %}{% include 'pnn' %}{% endif %}", True),
+    "d_inc_nested_with_then_top": ("{% with x: c %}{% include 'pn' %}{% endwith %}{% include 'pn' %}{% capture x %}{% include 'pnn' %}{% endcapture %}", True),
     "d_render_with_then_plain": ("{% render 'item' with c %}{% render 'item' %}", True),
     "d_render_for_as_then_plain": ("{% render 'px' for xs as x %}{% render 'px' %}", False),
     "d_snippet_args_differ": ("{% snippet s %}{{ x }}{% endsnippet %}{% snippet t %}{{ y }}{% endsnippet %}{% render s %}{% if f %}{% render t, q: c %}{% endif %}", False),
